@@ -271,15 +271,24 @@ def _run_build(c, P):
             expect_reject(c, w, sock, fn, name)
         cls = 'types:' + name
     elif kind == 'json':
-        which = c.choose(4, 'case')
         import json as _json
-        objs = [{'foo': 'bar'}, [1, 2, 'x€'], 'plain', {'n': None, 'k': [True, 1.5]}]
-        obj = objs[which]
-        if which == 0 and bool(c.boolean('kw')):
+        # every JSON document kind, including the falsy ones (null, [], {}, 0, 0.0, false, "")
+        objs = [{'foo': 'bar'}, [1, 2, 'x\u20ac'], 'plain', {'n': None, 'k': [True, 1.5]}, None, [], {}, 0, 0.0, False, '', 1, True, [None]]
+        which = c.choose(len(objs) + 3, 'case')
+        if which == len(objs):
             ws.send_json(foo='bar')
+            check_one_frame(c, w, sock, 1, list(_json.dumps({'foo': 'bar'}).encode('utf-8')), 'send_json(foo=...)')
+        elif which == len(objs) + 1:
+            ws.send_json()
+            check_one_frame(c, w, sock, 1, list(b'{}'), 'send_json()')
+        elif which == len(objs) + 2:
+            # positional AND keyword arguments: documented ValueError, nothing written
+            k = c.choose(3, 'posarg')
+            expect_reject(c, w, sock, lambda: ws.send_json([{'a': 1}, None, 0][k], foo='bar'), 'send_json(obj, **kwargs)', allowed=(ValueError, TypeError))
         else:
+            obj = objs[which]
             ws.send_json(obj)
-        check_one_frame(c, w, sock, 1, list(_json.dumps(obj).encode('utf-8')), 'send_json(case %d)' % which)
+            check_one_frame(c, w, sock, 1, list(_json.dumps(obj).encode('utf-8')), 'send_json(%r)' % (obj,))
         cls = 'json:%d' % which
     wr = [e for e in w.log if e[0] == 'write']
     return {'cls': cls, 'sample': {'call': cls, 'written_bytes': len(items_of(wr[0][2])) if wr else 0},
